@@ -215,6 +215,22 @@ func checkMain(repo, verif string, args []string) int {
 				}
 			}
 		}
+		// translator validation: passing paths found by the engine must also pass on the real build
+		if len(res.Violations) == 0 && os.Getenv("VERIF_NO_WITNESS") == "" {
+			nw := 0
+			for i := len(res.Witnesses) - 1; i >= 0 && nw < 1; i-- {
+				wv := res.Witnesses[i]
+				path := filepath.Join(verif, "replay", fmt.Sprintf("%s-%s-witness.json", prop, r.Name))
+				writeReplay(path, r, cfg, wv)
+				failed, out := replayNative(repo, verif, path)
+				nw++
+				replayed++
+				if failed || !strings.Contains(out, "ok  \t") {
+					fmt.Printf("TRANSLATOR-MISMATCH property=%s run=%s: a path the engine passes fails natively (replay=%s)\n%s\n", prop, r.Name, path, tailLines(out, 12))
+					inconclusive = append(inconclusive, r.Name+": engine/native mismatch on a passing path")
+				}
+			}
+		}
 		// violations: dedupe by signature, classify, replay
 		seen := map[string]bool{}
 		for _, v := range res.Violations {
